@@ -42,7 +42,7 @@ def run(env, tier, seed, broken=None):
         cases.append({'id': 'd%d' % n, 'src': '%s a = [];\n' % VAR + ''.join('a = [a];\n' for _ in range(min(d, 500))) + '%s a;\n' % PRINT}); n += 1
     for i in range(2500 if tier == 'quick' else 100000):
         r = sub_rng(seed, 'C07r%d' % i)
-        cases.append({'id': 'r%d' % n, 'src': progs.random_program(r, r.randint(4, 18), 3, fault_rate=0.5, use_input=True), 'stdin': 'a\n5\n'}); n += 1
+        cases.append({'id': 'r%d' % n, 'src': progs.random_program(r, r.randint(4, 18), 3, fault_rate=0.5, use_input=True), 'stdin': r.choice(['a\n5\n', '\n\nx\n', ' \n\n', '\r\n\n', '7'])}); n += 1
     mism, ri, rm = diff_runs(env, cases, fuel=400000)
     # dedicated probes: known findings live here and only here
     probes = [
